@@ -30,8 +30,32 @@ META = {
 DECODERS = ("from_bytes", "decode")
 
 
+def _late_imports():
+    """imports needed by the rule groups (made at run time: rule modules import each other)"""
+    global c19, common
+    global _c18r
+    global _ra9
+    from rules import c19, common
+    from rules import c18 as _c18r
+    from vlib.flow import reachable_avoiding as _ra9
+
+
+
 def check(ck):
     prog = ck.prog
+    _late_imports()
+    # each rule group runs on its own: an anchor lost in one group does not silence the others (the first refusal is raised at the end)
+    deferred = []
+    for part in (_part1, _part2, _part3, _part4, _part5, _part6, _part7):
+        try:
+            part(ck, prog)
+        except AnalysisError as ex:
+            deferred.append(ex)
+    if deferred:
+        raise deferred[0]
+
+
+def _part1(ck, prog):
     # ---- C17.1 / C17.2 ----------------------------------------------------------------------------
     sites = [(prog.func("jsonrpc", "TransportMixIn.send_content"), "putheader", "send", "self._config.content_type"),
              (prog.func(SRV, "SimpleJSONRPCRequestHandler.do_POST"), "send_header", "write", "config.content_type"),
@@ -49,63 +73,84 @@ def check(ck):
             if hdr == "print":
                 return v.lower() if v.endswith(":") and not v[:-1].endswith((":", " ")) else None, v
             return v.lower() + ":", v
-        for n in g.live_nodes():
-            for c in node_calls(n):
-                if call_name(c) == hdr and c.args and isinstance(c.args[0], ast.Constant) and "content-length" in str(c.args[0].value).lower():
-                    lens.append((n, c))
-                    nm, raw = _hname(c)
-                    ck.require(nm == "content-length:", "C17.1", "%s: header name of the declared length" % q.fn(fi), "Content-Length",
-                               "the length is declared under the name `%s`, which is not the Content-Length header" % raw, q.loc(fi, n))
-        if len(writes) != 1 or len(lens) != 1:
+        near_l = [(n, c) for n in g.live_nodes() for c in node_calls(n)
+                  if call_name(c) == hdr and c.args and isinstance(c.args[0], ast.Constant) and "content-length" in str(c.args[0].value).lower()]
+        # the header of that exact name; another header whose name merely contains it (X-Content-Length-Hint) is none of this rule's
+        # business once the real one is there - and is reported as a misspelling when it is not
+        lens = [(n, c) for (n, c) in near_l if _hname(c)[0] == "content-length:"] or near_l
+        for (n, c) in lens:
+            nm, raw = _hname(c)
+            ck.require(nm == "content-length:", "C17.1", "%s: header name of the declared length" % q.fn(fi), "Content-Length",
+                       "the length is declared under the name `%s`, which is not the Content-Length header" % raw, q.loc(fi, n))
+        if not writes or not lens:
             raise AnalysisError("anchor vanished: body write / Content-Length emission in %s (%d/%d)" % (q.fn(fi), len(writes), len(lens)))
-        wn, wc = writes[0]
-        ln, lc = lens[0]
-        if len(lc.args) < 2:
-            ck.bad("C17.1", "%s: Content-Length vs the bytes written" % q.fn(fi), "the Content-Length header is emitted without a value (`%s`)" % dump(lc),
-                   q.loc(fi, ln))
-            continue
-        val = lc.args[1]
-        if not isinstance(wc.args[0], ast.Name):
-            ck.bad("C17.1", "%s: Content-Length vs the bytes written" % q.fn(fi),
-                   "the declared Content-Length is `%s` but the bytes written are `%s`: the length is not taken from the very bytes sent"
-                   % (dump(val), dump(wc.args[0])), q.loc(fi, ln))
-            continue
-        var = wc.args[0].id
-        inner = val
-        if isinstance(inner, ast.Call) and dump(inner.func) in ("str", "repr") and len(inner.args) == 1 and not inner.keywords:      # (the same text for an int)
-            inner = inner.args[0]
-        okk = isinstance(inner, ast.Call) and dump(inner.func) == "len" and inner.args and isinstance(inner.args[0], ast.Name) and inner.args[0].id == var
-        same = okk and rd.get(ln.id, {}).get(var) == rd.get(wn.id, {}).get(var)
-        ck.require(bool(same), "C17.1", "%s: Content-Length = len(%s) of the bytes written" % (q.fn(fi), var), "same reaching definition of `%s`" % var,
-                   "the declared Content-Length is `%s` but `%s` is written: the length is not that of the very bytes sent (e.g. computed "
-                   "before encoding, or the body is redefined in between)" % (dump(val), dump(wc.args[0])), q.loc(fi, ln))
-        t = prov.origin(g, wn, wc.args[0])
-        bytesy = all(a[0] == "call" and (prov.show(a[1]).endswith("to_bytes") or (a[1][0] == "attr" and a[1][2] == "encode")) for a in prov.alts(t))
-        ck.require(bytesy, "C17.1", "%s: `%s` is produced by a bytes conversion" % (q.fn(fi), var), "to_bytes(...) / .encode(...)",
-                   "the written body is %s, not the result of a bytes conversion: its len() is not a byte length" % prov.show(t)[:70], q.loc(fi, wn))
-        cts = []
-        for n in g.live_nodes():
-            for c in node_calls(n):
-                if call_name(c) == hdr and c.args and isinstance(c.args[0], ast.Constant) and "content-type" in str(c.args[0].value).lower():
-                    cts.append((n, c))
-        for (n_, c_) in cts:
-            nm, raw = _hname(c_)
-            ck.require(nm == "content-type:", "C17.2", "%s: header name of the content type" % q.fn(fi), "Content-Type",
-                       "the content type is sent under the name `%s`, which is not the Content-Type header" % raw, q.loc(fi, n_))
-        ctv = dump(cts[0][1].args[1]) if cts and len(cts[0][1].args) > 1 else None
-        ck.require(len(cts) == 1 and ctv == ctype, "C17.2", "%s: Content-Type from the configuration" % q.fn(fi), ctype,
-                   "the emitted content type is `%s`, not the configured %s" % (ctv, ctype), q.loc(fi, ln))
-        # the two headers belong to the header block: they precede the call that closes it (end_headers / endheaders / the empty line)
-        from vlib.flow import reachable_avoiding as _ra2
-        enders = [n for n in g.live_nodes() for c in node_calls(n) if call_name(c) in ("end_headers", "endheaders") or
-                  (isinstance(c.func, ast.Name) and c.func.id == "print" and not c.args and not c.keywords)]
-        for (hn, _hc) in [lens[0]] + cts[:1]:
-            late = [e_ for e_ in enders if hn.id in _ra2(g, e_.id, set(), lambda l: l != "exc") and e_.id not in _ra2(g, hn.id, set(), lambda l: l != "exc")]
-            ck.require(bool(enders) and not late, "C17.1", "%s: `%s` inside the header block" % (q.fn(fi), q.stmt_text(hn)[:40]), "before the block is closed",
-                       "the header is emitted after the header block has been closed (`%s`): it is not part of the message's headers"
-                       % (q.stmt_text(late[0])[:40] if late else "no closing call found"), q.loc(fi, hn))
+        # one message per body write: its headers are the header calls from which the write is reached without passing another
+        # body write (a handler may answer on several exits, each with its own header block)
+        write_ids = set(n.id for (n, _c) in writes)
+        for (wn, wc) in writes:
+            before, stack = set(), [wn.id]
+            while stack:
+                x = stack.pop()
+                if x in before or (x in write_ids and x != wn.id):
+                    continue
+                before.add(x)
+                for (a_, l_) in g.pred[x]:
+                    if l_ != "exc":
+                        stack.append(a_)
+            lens_w = [(n, c) for (n, c) in lens if n.id in before]
+            if len(lens_w) != 1:
+                if len(writes) == 1:
+                    raise AnalysisError("anchor vanished: body write / Content-Length emission in %s (%d/%d)" % (q.fn(fi), len(writes), len(lens)))
+                ck.bad("C17.1", "%s: Content-Length of the body written by `%s`" % (q.fn(fi), q.stmt_text(wn)[:40]),
+                       "%d Content-Length headers lead to this body write (exactly one is required)" % len(lens_w), q.loc(fi, wn))
+                continue
+            ln, lc = lens_w[0]
+            if len(lc.args) < 2:
+                ck.bad("C17.1", "%s: Content-Length vs the bytes written" % q.fn(fi), "the Content-Length header is emitted without a value (`%s`)" % dump(lc),
+                       q.loc(fi, ln))
+                continue
+            val = lc.args[1]
+            if not isinstance(wc.args[0], ast.Name):
+                ck.bad("C17.1", "%s: Content-Length vs the bytes written" % q.fn(fi),
+                       "the declared Content-Length is `%s` but the bytes written are `%s`: the length is not taken from the very bytes sent"
+                       % (dump(val), dump(wc.args[0])), q.loc(fi, ln))
+                continue
+            var = wc.args[0].id
+            inner = val
+            if isinstance(inner, ast.Call) and dump(inner.func) in ("str", "repr") and len(inner.args) == 1 and not inner.keywords:      # (the same text for an int)
+                inner = inner.args[0]
+            okk = isinstance(inner, ast.Call) and dump(inner.func) == "len" and inner.args and isinstance(inner.args[0], ast.Name) and inner.args[0].id == var
+            same = okk and rd.get(ln.id, {}).get(var) == rd.get(wn.id, {}).get(var)
+            ck.require(bool(same), "C17.1", "%s: Content-Length = len(%s) of the bytes written" % (q.fn(fi), var), "same reaching definition of `%s`" % var,
+                       "the declared Content-Length is `%s` but `%s` is written: the length is not that of the very bytes sent (e.g. computed "
+                       "before encoding, or the body is redefined in between)" % (dump(val), dump(wc.args[0])), q.loc(fi, ln))
+            t = prov.origin(g, wn, wc.args[0])
+            bytesy = all(a[0] == "call" and (prov.show(a[1]).endswith("to_bytes") or (a[1][0] == "attr" and a[1][2] == "encode")) for a in prov.alts(t))
+            ck.require(bytesy, "C17.1", "%s: `%s` is produced by a bytes conversion" % (q.fn(fi), var), "to_bytes(...) / .encode(...)",
+                       "the written body is %s, not the result of a bytes conversion: its len() is not a byte length" % prov.show(t)[:70], q.loc(fi, wn))
+            near_c = [(n, c) for n in g.live_nodes() if n.id in before for c in node_calls(n)
+                      if call_name(c) == hdr and c.args and isinstance(c.args[0], ast.Constant) and "content-type" in str(c.args[0].value).lower()]
+            cts = [(n, c) for (n, c) in near_c if _hname(c)[0] == "content-type:"] or near_c
+            for (n_, c_) in cts:
+                nm, raw = _hname(c_)
+                ck.require(nm == "content-type:", "C17.2", "%s: header name of the content type" % q.fn(fi), "Content-Type",
+                           "the content type is sent under the name `%s`, which is not the Content-Type header" % raw, q.loc(fi, n_))
+            ctv = dump(cts[0][1].args[1]) if cts and len(cts[0][1].args) > 1 else None
+            ck.require(len(cts) == 1 and ctv == ctype, "C17.2", "%s: Content-Type from the configuration" % q.fn(fi), ctype,
+                       "the emitted content type is `%s`, not the configured %s" % (ctv, ctype), q.loc(fi, ln))
+            # the two headers belong to the header block: they precede the call that closes it (end_headers / endheaders / the empty line)
+            from vlib.flow import reachable_avoiding as _ra2
+            enders = [n for n in g.live_nodes() if n.id in before for c in node_calls(n) if call_name(c) in ("end_headers", "endheaders") or
+                      (isinstance(c.func, ast.Name) and c.func.id == "print" and not c.args and not c.keywords)]
+            for (hn, _hc) in [(ln, lc)] + cts[:1]:
+                late = [e_ for e_ in enders if hn.id in _ra2(g, e_.id, set(), lambda l: l != "exc") and e_.id not in _ra2(g, hn.id, set(), lambda l: l != "exc")]
+                ck.require(bool(enders) and not late, "C17.1", "%s: `%s` inside the header block" % (q.fn(fi), q.stmt_text(hn)[:40]), "before the block is closed",
+                           "the header is emitted after the header block has been closed (`%s`): it is not part of the message's headers"
+                           % (q.stmt_text(late[0])[:40] if late else "no closing call found"), q.loc(fi, hn))
     ck.floor("C17.1", 6)
 
+
+def _part2(ck, prog):
     # ---- C17.3 decode after join ----------------------------------------------------------------------
     fp = prog.func(SRV, "SimpleJSONRPCRequestHandler.do_POST")
     g = cfg_of(fp)
@@ -208,6 +253,8 @@ def check(ck):
                    "%s.feed can return without storing the chunk it was given (a test on the chunk's content): the reassembled text "
                    "depends on where the read boundaries fall" % cls_, q.loc(ff_, ff_.node))
 
+
+def _part3(ck, prog):
     # ---- C17.4 / C17.5 request target and schemes -------------------------------------------------------------
     finit = prog.func("jsonrpc", "ServerProxy.__init__")
     frun = prog.func("jsonrpc", "ServerProxy._run_request")
@@ -256,7 +303,8 @@ def check(ck):
         for (_tr, out) in res:
             n4 += 1
             if not accepted:
-                ck.require(out[0] == "raise" and out[1] in ("IOError", "OSError"), "C17.5", "%s: scheme %r" % (q.fn(finit), scheme), "raises IOError",
+                # (rejected = an exception leaves the constructor; the property does not name its class)
+                ck.require(out[0] == "raise", "C17.5", "%s: scheme %r" % (q.fn(finit), scheme), "raises",
                            "a proxy for the unsupported URL %s is %s; unsupported schemes must be rejected when the proxy is built" % (
                                label, "built" if out[0] == "return" else "rejected with " + out[1]), q.loc(finit, finit.node))
                 continue
@@ -307,27 +355,32 @@ def check(ck):
     ck.floor("C17.4", 20)
     ck.floor("C17.5", 30)
 
+
+def _part4(ck, prog):
     # ---- C17.6 each response is reassembled in its own buffer (shared with C19.3) -------------------------------------------
-    from rules import c19, common
     common.import_rules(ck, c19, {"C19.3": "C17.6"})
     ck.floor("C17.6", 8)
 
+
+def _part5(ck, prog):
     # ---- C17.7 the declared content type cannot be overridden (shared with C18.4) --------------------------------------------
-    from rules import c18 as _c18r
     common.import_rules(ck, _c18r.rule_readonly_table, {"C18.3": "C17.7"})
     ck.floor("C17.7", 1)
 
+
+def _part6(ck, prog):
     # ---- C17.8 the configuration reaches every layer (shared with C01.10) --------------------------------------------------------
     common.check_config_forwarding(ck, "C17.8")
     ck.floor("C17.8", 4)
 
+
+def _part7(ck, prog):
     # ---- C17.9 the request line: one putrequest("POST", <handler>) on every path of send_request -----------------------------------
     fq_ = prog.func("jsonrpc", "TransportMixIn.send_request")
     gq = cfg_of(fq_)
     puts = [(n, c) for n in gq.live_nodes() for c in node_calls(n) if call_name(c) == "putrequest"]
     if not puts:
         raise AnalysisError("anchor vanished: putrequest(...) in %s" % q.fn(fq_))
-    from vlib.flow import reachable_avoiding as _ra9
     put_ids = set(n.id for n, _c in puts)
     normal = lambda l: l != "exc"       # noqa: E731
     rets = [n for n in gq.live_nodes() if n.kind == "return"]
